@@ -6,10 +6,23 @@ Protocol (one line per request, ASCII):
   cht   <n> (<fg> <bg> <eff> <nc> <text>)*n  t = CHText(*parts): str(t), t.plain_text(), strip_colors(str(t))
                                              (fg = P: the part is a plain str, not a chunk)
   pfmt  <text>                               str(ColorFmt.get_plaintext_fmt()(text))
+  seq   <n> entries                          several calls in ONE process, in order; entry =
+                                             F <fg> <bg> <eff> <nc> <text>   f = ColorFmt(...); str(f(text))
+                                             B <fg> <bg> <eff> <nc> <bytes>  ColorBytes(...)(bytes)
+                                             R <k> <text>                    the ColorFmt object of entry k again
+                                             P <text>                        ColorFmt.get_plaintext_fmt()(text)
+  hist  <k> (<fg> <bg> <eff> <nc>)*k ops     ONE CHText object x = CHText(), formatters 1..k (0 = plain), ops:
+                                             a:<id>:<text> x += fmt_id(text) | p:<text> x += text | self x += x |
+                                             selfl x += [x] | cl x = CHText(x) | r  observe str(x), plain_text(),
+                                             strip_colors(str(x))
+  ops   <k> (<fg> <bg> <eff> <nc>)*k program postfix program over CHText operations (token language of C08:
+                                             s: c:<id>: ls: tp: mk: add iadd join: idx: sl: fl: dupiadd dupiaddl);
+                                             str / plain_text / strip of the resulting CHText or chunk
   strip <text>                               CHText.strip_colors(text)
   term  <text>                               diagnostic: what a terminal shows (Lean `Sgr.interp` against the
                                              oracle's Python terminal; the real code is not involved)
-colour token: N (None) | s:<code points> | i:<int> | t:<int,int,..> ('-' = empty) | o (a float)
+colour token: N (None) | s:<code points> | i:<int> | f:<decimal> (a float) | t:<num,num,..> ('-' = empty; a
+              component with '.' is a float) | o (a bytes object)
 eff: five letters N/F/T (None/False/True) for bold, faint, underline, blink, crossed;  nc: 0/1
 strings: comma separated code points, '-' = empty.
 """
@@ -27,22 +40,37 @@ THEOREMS = [
     "C09.nocolor_no_esc", "C09.plain_no_esc",
     "C09.chunk_shows", "C09.chunk_resets", "C09.text_shows", "C09.text_invalid",
     "C09.strip_plain", "C09.strip_chunk", "C09.strip_render", "C09.strip_text",
-    "C09.chunks_show", "C09.bytes_same",
+    "C09.chunks_show",
+    "C09.value_shows", "C09.ops_show", "C09.palette_invalid", "C09.abstraction_sound", "C09.hist_shows",
+    "C09.calls_stateless", "C09.invalid_raises_always",
+    "C09.bytes_same",
 ]
 RULE = ("fmt: every fg x bg pair of the 8 names, all 256 ints, all 216 cube triples, g0..g30 (each as fg and as bg), "
         "all 3^5 effect settings, malformed values (ints/tuples out of range, wrong lengths, unknown and mangled names, "
-        "floats), no_color with valid and invalid values, random ESC-free unicode texts; bytes: the same specs with "
-        "random ESC-free payloads; cht: CHText of 0..7 parts (chunks of a small pool of formatters so that neighbours "
-        "merge, plain strs, empty texts); strip: random strings over ESC [ ; : m ? digits (ASCII and other Unicode "
+        "floats, tuples with float members, bytes), no_color with valid and invalid values, random ESC-free unicode texts; "
+        "bytes: the same specs with random ESC-free payloads; cht: CHText of 0..7 parts (chunks of a small pool of "
+        "formatters so that neighbours merge, plain strs, empty texts); seq: 2..6 calls in one process - a valid int/tuple "
+        "followed/preceded by an equal-but-invalid float value in the same role (every int in thorough), repeated "
+        "identical calls, formatter objects used again, the shared plain formatter, invalid calls in between, repeated "
+        "texts; hist: one CHText object mutated (+= chunk of the same / another colour, += str, += itself, += [itself], "
+        "CHText(x)) and observed after every step - all histories of <= 3 (thorough: 5) mutations over a 6-letter "
+        "alphabet plus random ones; ops: random well-typed trees (depth <= 3) of mk/+/+=/join/slice/index/fixed_len/"
+        "x+=x over chunks of 1..3 formatters; strip: random strings over ESC [ ; : m ? digits (ASCII and other Unicode "
         "decimal digits) and letters, emitted sequences cut at random places. non-trivial = fmt/bytes with a colour or "
-        "effect or a malformed value, cht with >= 2 parts, strip/term of a string containing ESC; distinct by protocol line")
+        "effect or a malformed value, cht/seq with >= 2 parts, hist with >= 2 observations, every ops tree, strip/term "
+        "of a string containing ESC; distinct by protocol line")
 TRUSTED = ["re (regular expression engine; the pattern is read from the source and modelled as ESC [ class* final)",
            "Unicode decimal digit table of the running Python (\\d), passed to the model as generated ranges",
            "str.encode / bytes concatenation"]
-ASSUMPTIONS = ["a terminal implements SGR as Sgr.run does: parameters 0,1,2,4,5,9,22,24,25,29,30-37,39,40-47,49 and the "
+ASSUMPTIONS = ["colour ids of the CHText model (C08) stand for formatters with pairwise different non-empty prefixes "
+               "(checked by the driver on every request: palOk; proved sufficient: C09.abstraction_sound)",
+               "a terminal implements SGR as Sgr.run does: parameters 0,1,2,4,5,9,22,24,25,29,30-37,39,40-47,49 and the "
                "colon forms 38:5:n / 48:5:n (ITU T.416); bold and faint are independent attributes",
-               "colour values are None, str, int, tuples of ints or objects of another hashable type; bool, list, tuples "
-               "with non-int members and 'g'+<text int() accepts but that is not ASCII digits> are outside the domain"]
+               "colour values are None, str, int, finite float, tuples of ints/floats or objects of another hashable type "
+               "(bytes); bool, list, tuples with non-numeric members, nan/inf and 'g'+<text int() accepts but that is not "
+               "ASCII digits> are outside the domain",
+               "state between test cases is not reset (one Python process per worker): failures that depend on what "
+               "earlier cases did are reported but may not replay alone; seq/hist/ops cases are self-contained"]
 
 ESC = "\x1b"
 EFFECTS = ["bold", "faint", "underline", "blink", "crossed"]
@@ -212,7 +240,11 @@ def translate(repo):
            "  lits := " + _chars("".join(chr(c) for c in lits)),
            "  ranges := [" + ", ".join("(%d, %d)" % (a, b) for a, b in ranges) + "]", "",
            "def stripFinal : Char := Char.ofNat %d" % fin, "", "end Gen.C09", ""]
-    return {"AkVerif/Gen/C09.lean": "\n".join(out)}
+    files = {"AkVerif/Gen/C09.lean": "\n".join(out)}
+    # Model/SgrText.lean composes with the CHText model of C08, which imports its own generated constants
+    from harness import c08
+    files.update(c08.translate(repo))
+    return files
 
 
 # ------------------------------------------------------------------ protocol <-> python values
@@ -225,23 +257,41 @@ def enc_color(v):
         raise ValueError("bool colour values are outside the domain")
     if isinstance(v, int):
         return "i:%d" % v
+    if isinstance(v, float):
+        return "f:" + _enc_float(v)
     if isinstance(v, tuple):
-        return "t:" + (",".join("%d" % x for x in v) if v else "-")
+        return "t:" + (",".join(_enc_float(x) if isinstance(x, float) else "%d" % x for x in v) if v else "-")
     return "o"
+
+
+_FLOAT_RE = re.compile(r"-?[0-9]+\.[0-9]+\Z")
+
+
+def _enc_float(v):
+    r = repr(v)
+    if not _FLOAT_RE.match(r):
+        raise ValueError("float %r is outside the protocol (finite, plain decimal notation only)" % v)
+    return r
+
+
+def _dec_num(x):
+    return float(x) if "." in x else int(x)
 
 
 def dec_color(tok):
     if tok == "N":
         return None
     if tok == "o":
-        return 1.5
+        return b"RED"
     k, _, rest = tok.partition(":")
     if k == "s":
         return dec_str(rest)
     if k == "i":
         return int(rest)
+    if k == "f":
+        return float(rest)
     if k == "t":
-        return () if rest == "-" else tuple(int(x) for x in rest.split(","))
+        return () if rest == "-" else tuple(_dec_num(x) for x in rest.split(","))
     raise ValueError("bad colour token " + tok)
 
 
@@ -292,6 +342,153 @@ def _parts(toks):
     return parts
 
 
+def _formatters(toks):
+    """(list of ColorFmt for ids 1..k, remaining tokens)"""
+    m = _mod()
+    k = int(toks[0])
+    fmts = []
+    for i in range(k):
+        fg, kw = _kwargs(toks[1 + 4 * i: 5 + 4 * i])
+        fmts.append(m.ColorFmt(fg, **kw))
+    return fmts, toks[1 + 4 * k:]
+
+
+def _chunk_of(fmts, cid, text):
+    m = _mod()
+    return (m.ColorFmt.get_plaintext_fmt() if cid == 0 else fmts[cid - 1])(text)
+
+
+def _look(x):
+    m = _mod()
+    s = str(x)
+    return "%s %s %s" % (enc_str(s), enc_str(x.plain_text()), enc_str(m.CHText.strip_colors(s)))
+
+
+def _run_seq(toks):
+    m = _mod()
+    n, toks = int(toks[0]), toks[1:]
+    objs, res, i = [], [], 0
+    # a formatter object is kept alive only when a later R entry uses it again; the others are dropped at once
+    # (as in ordinary use), so that later objects may get the same address
+    used, j = set(), 0
+    for _ in range(n):
+        if toks[j] == "R":
+            used.add(int(toks[j + 1]))
+        j += _ENTRY_WIDTH[toks[j]]
+    for _ in range(n):
+        kind = toks[i]
+        if kind in ("F", "B"):
+            sp, payload = toks[i + 1:i + 5], toks[i + 5]
+            i += 6
+            try:
+                fg, kw = _kwargs(sp)
+                if kind == "F":
+                    f = m.ColorFmt(fg, **kw)
+                    res.append("s:" + enc_str(str(f(dec_str(payload)))))
+                    objs.append(f if len(objs) in used else None)
+                    del f
+                else:
+                    res.append("b:" + enc_bytes(m.ColorBytes(fg, **kw)(dec_bytes(payload))))
+                    objs.append(None)
+            except Exception as e:
+                res.append("e:" + type(e).__name__)
+                objs.append(None)
+        elif kind == "P":
+            res.append("s:" + enc_str(str(m.ColorFmt.get_plaintext_fmt()(dec_str(toks[i + 1])))))
+            objs.append(None)
+            i += 2
+        else:
+            k, text = int(toks[i + 1]), dec_str(toks[i + 2])
+            i += 3
+            f = objs[k] if k < len(objs) else None
+            res.append("none" if f is None else "s:" + enc_str(str(f(text))))
+            objs.append(None)
+    return "ok " + "|".join(res)
+
+
+def _run_hist(toks):
+    m = _mod()
+    fmts, ops = _formatters(toks)
+    x = m.CHText()
+    looks = []
+    for tok in ops:
+        f = tok.split(":")
+        if f[0] == "a":
+            x += _chunk_of(fmts, int(f[1]), dec_str(f[2]))
+        elif f[0] == "p":
+            x += dec_str(f[1])
+        elif f[0] == "self":
+            x += x
+        elif f[0] == "selfl":
+            x += [x]
+        elif f[0] == "cl":
+            x = m.CHText(x)
+        elif f[0] == "r":
+            looks.append(_look(x))
+        else:
+            raise RuntimeError("bad hist op " + tok)
+    return "ok " + "|".join(looks)
+
+
+def _opt_int(t):
+    return None if t == "n" else int(t)
+
+
+def _run_ops(toks):
+    m = _mod()
+    fmts, prog = _formatters(toks)
+    st = []
+    for tok in prog:
+        f = tok.split(":")
+        k = f[0]
+        if k == "s":
+            st.append(dec_str(f[1]))
+        elif k == "c":
+            st.append(_chunk_of(fmts, int(f[1]), dec_str(f[2])))
+        elif k in ("ls", "tp", "mk"):
+            n = int(f[1])
+            items = st[len(st) - n:]
+            del st[len(st) - n:]
+            st.append(list(items) if k == "ls" else tuple(items) if k == "tp" else m.CHText(*items))
+        elif k == "add":
+            b = st.pop()
+            a = st.pop()
+            st.append(a + b)
+        elif k == "iadd":
+            b = st.pop()
+            x = st.pop()
+            x += b
+            st.append(x)
+        elif k == "dupiadd":
+            x = st.pop()
+            x += x
+            st.append(x)
+        elif k == "dupiaddl":
+            x = st.pop()
+            x += [x]
+            st.append(x)
+        elif k == "join":
+            n = int(f[2])
+            items = st[len(st) - n:]
+            del st[len(st) - n:]
+            sep = st.pop()
+            st.append(sep.join(items if f[1] == "l" else tuple(items)))
+        elif k == "idx":
+            st.append(st.pop()[int(f[1])])
+        elif k == "sl":
+            st.append(st.pop()[_opt_int(f[1]):_opt_int(f[2])])
+        elif k == "fl":
+            st.append(st.pop().fixed_len(int(f[1])))
+        else:
+            raise RuntimeError("bad program token " + tok)
+    if len(st) != 1:
+        raise RuntimeError("program leaves %d values" % len(st))
+    x = st[0]
+    if isinstance(x, (m.CHText, m.CHText.Chunk)):
+        return "ok " + _look(x)
+    return "other"
+
+
 def impl(case):
     m = _mod()
     out = []
@@ -310,6 +507,12 @@ def impl(case):
                 out.append("ok %s %s %s" % (enc_str(s), enc_str(t.plain_text()), enc_str(m.CHText.strip_colors(s))))
             elif op == "pfmt":
                 out.append("ok " + enc_str(str(m.ColorFmt.get_plaintext_fmt()(dec_str(a[0])))))
+            elif op == "seq":
+                out.append(_run_seq(a))
+            elif op == "hist":
+                out.append(_run_hist(a))
+            elif op == "ops":
+                out.append(_run_ops(a))
             elif op == "strip":
                 out.append("ok " + enc_str(m.CHText.strip_colors(dec_str(a[0]))))
             elif op == "term":
@@ -446,7 +649,7 @@ def wanted_colour(v):
     if isinstance(v, int) and not isinstance(v, bool):
         return ("ok", "x%d" % v) if 0 <= v <= 255 else ("bad",)
     if isinstance(v, tuple):
-        if len(v) == 3 and all(isinstance(c, int) and 0 <= c <= 5 for c in v):
+        if len(v) == 3 and all(isinstance(c, int) and not isinstance(c, bool) and 0 <= c <= 5 for c in v):
             return ("ok", "x%d" % (16 + 36 * v[0] + 6 * v[1] + v[2]))
         return ("bad",)
     return ("bad",)
@@ -480,44 +683,235 @@ def _check_shown(s, expect, what):
     return None
 
 
+def _judge_call(op, a, rep, line):
+    """one `fmt` / `bytes` call judged by the statement alone (whatever was called before it)"""
+    m = _mod()
+    verdict, st = wanted(a)
+    nc = a[3] == "1"
+    if nc:
+        if verdict == "bad" and rep == "err ValueError":
+            return None             # rejecting an invalid value also under no_color would satisfy the statement
+        st = DEFAULT
+    elif verdict == "bad":
+        if rep != "err ValueError":
+            return "invalid-accepted: %s gives %s" % (line, rep[:60])
+        return None
+    elif verdict == "either" and rep == "err ValueError":
+        return None
+    if not rep.startswith("ok "):
+        return "valid-rejected: %s gives %s" % (line, rep)
+    if op == "fmt":
+        text, s = dec_str(a[4]), dec_str(rep[3:])
+        if nc and ESC in s:
+            return "nocolor-esc: %s emits an escape character" % line
+        msg = _check_shown(s, [(text, st)], line)
+        if msg:
+            return msg
+        if m.CHText.strip_colors(s) != text:
+            return "strip: strip_colors(%r) = %r" % (s, m.CHText.strip_colors(s))
+    else:
+        payload, got = dec_bytes(a[4]), dec_bytes(rep[3:])
+        if nc and b"\x1b" in got:
+            return "nocolor-esc: %s emits an escape byte" % line
+        text = payload.decode("latin-1")
+        shown = got.decode("latin-1")
+        msg = _check_shown(shown, [(text, st)], line)        # the bytes are the same sequences: same screen
+        if msg:
+            return "bytes-" + msg
+        fg, kw = _kwargs(a)
+        try:
+            ref = str(m.ColorFmt(fg, **kw)(text))
+        except ValueError:
+            ref = None               # judged above: only possible for a zero padded gray or under no_color
+        if ref is not None and (any(ord(c) > 255 for c in ref) or ref.encode("latin-1") != got):
+            return "bytes-differ: %s gives %r, the text formatter %r" % (line, got, ref)
+    return None
+
+
+def _palette_states(toks):
+    """formatter tokens `<k> (<fg> <bg> <eff> <nc>)*k rest` -> (verdict, [state of id 0..k], rest)"""
+    k = int(toks[0])
+    states, verdicts = [DEFAULT], []
+    for i in range(k):
+        sp = toks[1 + 4 * i: 5 + 4 * i]
+        verdict, st = wanted(sp)
+        if sp[3] == "1":
+            verdict, st = ("either" if verdict == "bad" else verdict), DEFAULT
+        verdicts.append(verdict)
+        states.append(st)
+    v = "bad" if "bad" in verdicts else "either" if "either" in verdicts else "ok"
+    return v, states, toks[1 + 4 * k:]
+
+
+def _judge_look(look, cells, states, what):
+    """one observation `str plain strip` of a CHText whose cells should be `cells` = [(char, colour id)]"""
+    s, pl, stripped = (dec_str(x) for x in look.split())
+    msg = _check_shown(s, [(ch, states[cid]) for ch, cid in cells], what)
+    if msg:
+        return msg
+    text = "".join(ch for ch, _ in cells)
+    if pl != text:
+        return "plain-text: %s: plain_text() = %r, expected %r" % (what, pl, text)
+    if stripped != pl:
+        return "strip: %s: strip_colors(%r) = %r, plain_text() = %r" % (what, s, stripped, pl)
+    return None
+
+
+_ENTRY_WIDTH = {"F": 6, "B": 6, "R": 3, "P": 2}
+
+
+class _RefIndexError(Exception):
+    pass
+
+
+def _ref_ops(prog):
+    """reference semantics of a postfix program on cells (Python's own list operations):
+    values are ('s', cells) str, ('l', cells) list/tuple (flattened), ('c', cells) chunk, ('t', cells) CHText"""
+    st = []
+
+    def cells_of(v):
+        return v[1]
+    for tok in prog:
+        f = tok.split(":")
+        k = f[0]
+        if k == "s":
+            st.append(("s", [(ch, 0) for ch in dec_str(f[1])]))
+        elif k == "c":
+            st.append(("c", [(ch, int(f[1])) for ch in dec_str(f[2])]))
+        elif k in ("ls", "tp", "mk"):
+            n = int(f[1])
+            items = st[len(st) - n:]
+            del st[len(st) - n:]
+            st.append(("t" if k == "mk" else "l", [c for it in items for c in cells_of(it)]))
+        elif k in ("add", "iadd"):
+            b = st.pop()
+            x = st.pop()
+            st.append(("t", cells_of(x) + cells_of(b)))
+        elif k in ("dupiadd", "dupiaddl"):
+            x = st.pop()
+            st.append(("t", cells_of(x) + cells_of(x)))
+        elif k == "join":
+            n = int(f[2])
+            items = st[len(st) - n:]
+            del st[len(st) - n:]
+            sep = cells_of(st.pop())
+            out = []
+            for i, it in enumerate(items):
+                if i:
+                    out += sep
+                out += cells_of(it)
+            st.append(("t", out))
+        elif k == "idx":
+            kind, cs = st.pop()
+            try:
+                st.append(("t" if kind == "t" else "c", [cs[int(f[1])]]))
+            except IndexError:
+                raise _RefIndexError()
+        elif k == "sl":
+            kind, cs = st.pop()
+            st.append((kind, cs[_opt_int(f[1]):_opt_int(f[2])]))
+        elif k == "fl":
+            kind, cs = st.pop()
+            n = int(f[1])
+            st.append(("t", cs[:n] if n < len(cs) else cs + [(" ", 0)] * (n - len(cs))))
+        else:
+            raise RuntimeError("bad program token " + tok)
+    return st[0]
+
+
 def oracle(case, replies):
     m = _mod()
     for line, rep in zip(case["lines"], replies):
         op, *a = line.split()
         if op in ("fmt", "bytes"):
-            verdict, st = wanted(a)
-            nc = a[3] == "1"
-            if nc:
-                if verdict == "bad" and rep == "err ValueError":
-                    continue            # rejecting an invalid value also under no_color would satisfy the statement
-                st = DEFAULT
-            elif verdict == "bad":
-                if rep != "err ValueError":
-                    return "invalid-accepted: %s gives %s" % (line, rep[:60])
-                continue
-            elif verdict == "either" and rep == "err ValueError":
-                continue
+            msg = _judge_call(op, a, rep, line)
+            if msg:
+                return msg
+        elif op == "seq":
             if not rep.startswith("ok "):
-                return "valid-rejected: %s gives %s" % (line, rep)
-            if op == "fmt":
-                text, s = dec_str(a[4]), dec_str(rep[3:])
-                if nc and ESC in s:
-                    return "nocolor-esc: %s emits an escape character" % line
-                msg = _check_shown(s, [(text, st)], line)
-                if msg:
-                    return msg
-                if m.CHText.strip_colors(s) != text:
-                    return "strip: strip_colors(%r) = %r" % (s, m.CHText.strip_colors(s))
+                return "seq-fails: %s gives %s" % (line[:80], rep)
+            n, toks, res = int(a[0]), a[1:], rep[3:].split("|")
+            entries, i = [], 0
+            for _ in range(n):
+                w = _ENTRY_WIDTH[toks[i]]
+                entries.append(toks[i:i + w])
+                i += w
+            seen, valid_before = {}, set()
+            for j, (e, r) in enumerate(zip(entries, res)):
+                key = " ".join(e)
+                if key in seen and seen[key] != r:
+                    return "history-dependent: the same call %s answers %s and later %s" % (key, seen[key], r)
+                seen[key] = r
+                if e[0] in ("F", "B"):
+                    one = {"s": "ok ", "b": "ok ", "e": "err "}[r[0]] + r[2:]
+                    msg = _judge_call("fmt" if e[0] == "F" else "bytes", e[1:], one,
+                                      "call %d of %s" % (j, " ".join(e)))
+                    if msg:
+                        # the same value (by ==) was accepted earlier in this process: validation has a memory
+                        fg, kw = _kwargs(e[1:5])
+                        if msg.startswith("invalid-accepted") and ((fg, "fg") in valid_before or (kw["bg_color"], "bg") in valid_before):
+                            return "history-dependent: " + msg
+                        return "in-sequence " + msg      # own kind: this replay is self-contained
+                    fg, kw = _kwargs(e[1:5])
+                    if r[0] != "e":
+                        valid_before.add((fg, "fg"))
+                        valid_before.add((kw["bg_color"], "bg"))
+                elif e[0] == "P":
+                    if r != "s:" + e[1]:
+                        return "nocolor-esc: call %d: the plain-text formatter turns %r into %s" % (j, dec_str(e[1]), r)
+                else:
+                    k = int(e[1])
+                    made = k < j and entries[k][0] == "F" and res[k][0] == "s"
+                    if not made:
+                        if r != "none":
+                            return "seq-object: %s answers %s but call %d made no formatter" % (" ".join(e), r, k)
+                        continue
+                    if r[0] != "s":
+                        return "history-dependent: formatter of call %d used again gives %s" % (k, r)
+                    msg = _judge_call("fmt", entries[k][1:5] + [e[2]], "ok " + r[2:], "call %d: object of call %d again" % (j, k))
+                    if msg:
+                        return "in-sequence " + msg
+        elif op in ("hist", "ops"):
+            verdict, states, rest = _palette_states(a)
+            if verdict == "bad":
+                if rep != "err ValueError":
+                    return "invalid-accepted: %s gives %s" % (line[:80], rep[:60])
+                continue
+            if verdict == "either" and rep == "err ValueError":
+                continue
+            if op == "hist":
+                if not rep.startswith("ok "):
+                    return "valid-rejected: %s gives %s" % (line[:120], rep)
+                cells, expected = [], []
+                for tok in rest:
+                    f = tok.split(":")
+                    if f[0] == "a":
+                        cells = cells + [(ch, int(f[1])) for ch in dec_str(f[2])]
+                    elif f[0] == "p":
+                        cells = cells + [(ch, 0) for ch in dec_str(f[1])]
+                    elif f[0] in ("self", "selfl"):
+                        cells = cells + cells
+                    elif f[0] == "r":
+                        expected.append(cells)
+                looks = rep[3:].split("|") if rep[3:] else []
+                if len(looks) != len(expected):
+                    return "hist: %d observations, %d expected" % (len(looks), len(expected))
+                for j, (look, cs) in enumerate(zip(looks, expected)):
+                    msg = _judge_look(look, cs, states, "observation %d of %s" % (j, line[:200]))
+                    if msg:
+                        return "history " + msg
             else:
-                payload, got = dec_bytes(a[4]), dec_bytes(rep[3:])
-                fg, kw = _kwargs(a)
-                ref = str(m.ColorFmt(fg, **kw)(payload.decode("latin-1")))
-                if nc and b"\x1b" in got:
-                    return "nocolor-esc: %s emits an escape byte" % line
-                if any(ord(c) > 255 for c in ref) or ref.encode("latin-1") != got:
-                    return "bytes-differ: %s gives %r, the text formatter %r" % (line, got, ref)
-                if "m" + payload.decode("latin-1") + ESC not in "m" + ref + ESC:
-                    return "bytes-differ: payload not embedded"
+                try:
+                    kind, cells = _ref_ops(rest)
+                except _RefIndexError:
+                    if rep != "err IndexError":
+                        return "ops-index: %s gives %s, an index is out of range" % (line[:200], rep[:60])
+                    continue
+                if not rep.startswith("ok "):
+                    return "ops-fails: %s gives %s" % (line[:200], rep[:60])
+                msg = _judge_look(rep[3:], cells, states, line[:300])
+                if msg:
+                    return "operations " + msg
         elif op == "cht":
             n = int(a[0])
             expect, bad, either = [], False, False
@@ -624,7 +1018,8 @@ MALFORMED = [-1, -2, -255, -256, 256, 257, 300, 1000, 2 ** 31, 2 ** 64, -2 ** 64
              "", "g", "G", "G5", "g24", "g25", "g30", "g99", "g100", "g255", "g256", "g-1", "g-5", "g1.5", "g1e1", "gx",
              "g5x", "gg5", "g0x10", "red", "Red", "green", "GREEN ", " RED", "RED\n", "REDD", "RE", "ORANGE", "GRAY",
              "GREY", "gray", "black", "0", "1", "31", "255", "BRIGHT_RED", "-", "DEFAULT", "None", "g" + "9" * 30,
-             "g" + "1" * 5000, "г" + "5", 1.5]
+             "g" + "1" * 5000, "г" + "5", 1.5, -1.0, 256.0, 0.5, 254.5, (1.5, 2, 3), (1, 2, 5.5), (6.0, 0, 0), (-1.0, 0, 0),
+             (0.5, 0.5, 0.5), b"RED"]
 PADDED = ["g00", "g05", "g007", "g023", "g0023", "g024", "g0000", "g" + "0" * 40 + "7", "g" + "0" * 40 + "24"]
 
 
@@ -689,6 +1084,184 @@ def rand_fragment_string(rng):
         else:
             out.append(rand_text(rng, 5))
     return "".join(out)
+
+
+# ---- several calls in one process / histories of one object / operation trees
+EQ_FLOATS = [0.0, 1.0, 7.0, 15.0, 16.0, 100.0, 200.0, 231.0, 232.0, 255.0]
+
+
+def equal_but_invalid(rng, v):
+    """a value that compares (and hashes) equal to the valid int / tuple `v` but is not a valid colour"""
+    if isinstance(v, int):
+        return float(v)
+    t = list(v)
+    for i in rng.sample(range(3), rng.randrange(1, 4)):
+        t[i] = float(t[i])
+    return tuple(t)
+
+
+def rand_numeric_valid(rng):
+    return rng.choice([rng.randrange(256), int(rng.choice(EQ_FLOATS)),
+                       (rng.randrange(6), rng.randrange(6), rng.randrange(6))])
+
+
+def _seq_text(rng):
+    """texts repeat inside a sequence: the same text through different formatters / the same formatter twice"""
+    return rng.choice(["x", "x", "ab", "", "m"]) if rng.random() < 0.6 else rand_text(rng, 3)
+
+
+def _entry(rng, kind, fg, bg, eff="NNNNN", nc=0):
+    payload = enc_str(_seq_text(rng)) if kind == "F" else enc_bytes(bytes(rng.choice([65, 109, 59, 200]) for _ in range(rng.randrange(3))))
+    return "%s %s %s" % (kind, spec_tokens(fg, bg, eff, nc), payload)
+
+
+def gen_seq(rng):
+    """-> (line, kind)"""
+    r = rng.random()
+    ents = []
+    if r < 0.45:
+        # a valid value, then an equal but invalid one in the same role (and the other order around it)
+        v = rand_numeric_valid(rng)
+        fv = equal_but_invalid(rng, v)
+        role = rng.choice(["fg", "bg"])
+        other = rng.choice([None, None, "RED", 5])
+        k1, k2 = rng.choice(["F", "F", "B"]), rng.choice(["F", "F", "B"])
+
+        def mk(kind, val):
+            return _entry(rng, kind, val, other) if role == "fg" else _entry(rng, kind, other, val)
+        order = rng.choice(["vi", "ivi", "viv", "vii"])
+        ents = [mk(k1 if c == "v" else k2, v if c == "v" else fv) for c in order]
+        kind = "seq-equal-" + order
+    else:
+        n = rng.randrange(2, 7)
+        pool = [(rand_valid_color(rng), rand_valid_color(rng), rand_eff(rng)) for _ in range(2)]
+        for i in range(n):
+            q = rng.random()
+            if q < 0.2 and ents:
+                ents.append("R %d %s" % (rng.randrange(0, i + 1 if rng.random() < 0.1 else i), enc_str(_seq_text(rng))))
+            elif q < 0.3 and ents:
+                ents.append(rng.choice(ents))                      # the very same call again
+            elif q < 0.36:
+                ents.append("P " + enc_str(_seq_text(rng)))
+            elif q < 0.45:
+                bad = rand_malformed(rng)
+                ents.append(_entry(rng, rng.choice("FB"), *rng.choice([(bad, None), (None, bad)])))
+            elif q < 0.6:
+                v = rand_numeric_valid(rng)
+                val = rng.choice([v, equal_but_invalid(rng, v)])
+                ents.append(_entry(rng, rng.choice("FFB"), *rng.choice([(val, None), (None, val)])))
+            else:
+                fg, bg, eff = rng.choice(pool)
+                ents.append(_entry(rng, rng.choice("FFFB"), fg, bg, eff, int(rng.random() < 0.05)))
+        kind = "seq-random"
+    return "seq %d %s" % (len(ents), " ".join(ents)), kind
+
+
+def rand_palette(rng, kmax=3):
+    """formatter tokens for colour ids 1..k with pairwise different, non-empty prefixes (the model identifies
+    a chunk's type with its colour id, the code with its prefix)"""
+    specs, seen = [], {""}
+    for _ in range(rng.randrange(1, kmax + 1)):
+        for _try in range(20):
+            fg, bg, eff = rand_valid_color(rng), rand_valid_color(rng), rand_eff(rng)
+            pre = _emitted(fg, bg, eff)
+            if pre not in seen:
+                seen.add(pre)
+                specs.append(spec_tokens(fg, bg, eff))
+                break
+    return specs
+
+
+def gen_hist(rng):
+    specs = rand_palette(rng)
+    k = len(specs)
+    ops, last, selfs = [], rng.randrange(k + 1), 0
+    for _ in range(rng.randrange(2, 11)):
+        q = rng.random()
+        if q < 0.4:
+            cid = last if rng.random() < 0.5 else rng.randrange(k + 1)
+            last = cid
+            ops.append("a:%d:%s" % (cid, enc_str("" if rng.random() < 0.1 else rand_text(rng, 3))))
+        elif q < 0.5:
+            ops.append("p:" + enc_str(rand_text(rng, 3)))
+            last = 0
+        elif q < 0.58 and selfs < 3:
+            ops.append(rng.choice(["self", "self", "selfl"]))
+            selfs += 1
+        elif q < 0.62:
+            ops.append("cl")
+        else:
+            ops.append("r")
+    ops.append("r")
+    return "hist %d %s %s" % (k, " ".join(specs), " ".join(ops)) if k else None
+
+
+def _gen_tree(rng, k, depth, want):
+    """postfix tokens of a random well-typed tree; want: 'T' CHText, 'C' chunk, 'P' any operand"""
+    def chunk():
+        base = ["c:%d:%s" % (rng.randrange(k + 1), enc_str("" if rng.random() < 0.08 else rand_text(rng, 4)))]
+        if depth > 0 and rng.random() < 0.25:
+            base += [rng.choice(["sl:%s:%s" % (rng.choice(["n", "0", "1", "-1", "2", "-2"]), rng.choice(["n", "0", "1", "-1", "3", "9"])),
+                                 "idx:%d" % rng.randrange(-3, 3)])]
+        return base
+    if want == "C":
+        return chunk()
+    if want == "P":
+        q = rng.random()
+        if q < 0.3:
+            return ["s:" + enc_str(rand_text(rng, 3))]
+        if q < 0.6:
+            return chunk()
+        if q < 0.72 and depth > 0:
+            n = rng.randrange(0, 3)
+            return [t for _ in range(n) for t in _gen_tree(rng, k, depth - 1, "P")] + ["%s:%d" % (rng.choice(["ls", "tp"]), n)]
+        return _gen_tree(rng, k, depth - 1, "T") if depth > 0 else chunk()
+    # want == "T"
+    if depth <= 0:
+        n = rng.randrange(0, 4)
+        return [t for _ in range(n) for t in _gen_tree(rng, k, 0, "P")] + ["mk:%d" % n]
+    q = rng.random()
+    obj = lambda: _gen_tree(rng, k, depth - 1, rng.choice("TTC"))
+    if q < 0.2:
+        n = rng.randrange(0, 4)
+        return [t for _ in range(n) for t in _gen_tree(rng, k, depth - 1, "P")] + ["mk:%d" % n]
+    if q < 0.35:
+        return obj() + _gen_tree(rng, k, depth - 1, "P") + ["add"]
+    if q < 0.42:
+        return rng.choice([["s:" + enc_str(rand_text(rng, 2))], ["c:0:" + enc_str("q"), "ls:1"]]) + obj() + ["add"]
+    if q < 0.57:
+        return obj() + _gen_tree(rng, k, depth - 1, "P") + ["iadd"]
+    if q < 0.65:
+        return obj() + [rng.choice(["dupiadd", "dupiadd", "dupiaddl"])]
+    if q < 0.75:
+        n = rng.randrange(0, 4)
+        return obj() + [t for _ in range(n) for t in _gen_tree(rng, k, depth - 1, "P")] + ["join:%s:%d" % (rng.choice("lt"), n)]
+    if q < 0.87:
+        return _gen_tree(rng, k, depth - 1, "T") + ["sl:%s:%s" % (rng.choice(["n", "0", "1", "2", "-1", "-3", "5"]),
+                                                                  rng.choice(["n", "0", "1", "3", "-1", "-2", "8", "40"]))]
+    if q < 0.93:
+        return _gen_tree(rng, k, depth - 1, "T") + ["idx:%d" % rng.randrange(-4, 5)]
+    return obj() + ["fl:%d" % rng.choice([0, 1, 2, 3, 5, 8, 12, -1, -2])]
+
+
+def gen_ops(rng):
+    specs = rand_palette(rng)
+    k = len(specs)
+    if not k:
+        return None
+    prog = _gen_tree(rng, k, rng.randrange(1, 4), rng.choice("TTTC"))
+    return "ops %d %s %s" % (k, " ".join(specs), " ".join(prog))
+
+
+def small_histories(maxlen):
+    """every history of at most `maxlen` mutations over a small alphabet, observed after every mutation
+    and at the start (rendering in between is the point)"""
+    import itertools
+    pal = "%s %s" % (spec_tokens("RED", None, "TNNNN"), spec_tokens(123, "g5"))
+    alphabet = ["a:1:" + enc_str("x"), "a:2:" + enc_str("yz"), "a:0:" + enc_str("w"), "p:" + enc_str("v"), "self", "cl"]
+    for n in range(1, maxlen + 1):
+        for combo in itertools.product(alphabet, repeat=n):
+            yield "hist 2 %s r %s" % (pal, " ".join(t + " r" for t in combo))
 
 
 def gen_cases(rng, tier):
@@ -768,6 +1341,27 @@ def gen_cases(rng, tier):
                 fg, bg, eff = rng.choice(pool)
                 toks.append("%s %s" % (spec_tokens(fg, bg, eff, int(rng.random() < 0.07)), enc_str(text)))
         yield _case("cht %d %s" % (n, " ".join(toks)) if n else "cht 0", "cht-malformed" if bad else "cht-%d" % min(n, 4))
+    # --- several calls in one process (validation must not remember earlier calls)
+    for v in (list(range(0, 256, 5)) if not thorough else list(range(256))):
+        fv = float(v)
+        yield _case("seq 2 F %s - F %s -" % (spec_tokens(v), spec_tokens(fv)), "seq-equal-vi")
+        yield _case("seq 3 B %s - B %s - F %s -" % (spec_tokens(None, fv), spec_tokens(None, v), spec_tokens(None, fv)),
+                    "seq-equal-ivi")
+    for _ in range(800 if not thorough else 40000):
+        line, kind = gen_seq(rng)
+        yield _case(line, kind)
+    # --- histories of one CHText object: mutate, observe, mutate, observe
+    for line in small_histories(3 if not thorough else 5):
+        yield _case(line, "hist-small")
+    for _ in range(1200 if not thorough else 60000):
+        line = gen_hist(rng)
+        if line:
+            yield _case(line, "hist-random")
+    # --- CHText values built by trees of operations
+    for _ in range(1500 if not thorough else 80000):
+        line = gen_ops(rng)
+        if line:
+            yield _case(line, "ops")
     # --- strip_colors / terminal on arbitrary strings
     for _ in range(2500 if not thorough else 200000):
         s = rand_fragment_string(rng)
@@ -809,6 +1403,16 @@ def search_cases(rng, tier):
         for b in range(-1, 8):
             for c in range(-1, 8):
                 yield _case("fmt %s %s" % (spec_tokens((a, b, c), None), enc_str("x")), "search-cube")
+    for v in range(256):
+        for kinds in ("FF", "BB", "FB"):
+            yield _case("seq 3 %s %s - %s %s - %s %s -" % (kinds[0], spec_tokens(v), kinds[1], spec_tokens(float(v)),
+                                                         kinds[1], spec_tokens(None, float(v))), "search-seq")
+    for r in range(6):
+        for g in range(6):
+            for b in range(6):
+                yield _case("seq 2 F %s - F %s -" % (spec_tokens((r, g, b)), spec_tokens((float(r), g, b))), "search-seq")
+    for line in small_histories(4):
+        yield _case(line, "search-hist")
 
 
 def corpus():
@@ -877,6 +1481,69 @@ def shrink(case):
             for cnd in cands:
                 q = parts[:i] + [cnd] + parts[i + 1:]
                 yield mk([str(n)] + [x for p in q for x in p])
+    elif op == "seq":
+        n, toks, ents, i = int(a[0]), a[1:], [], 0
+        for _ in range(n):
+            w = _ENTRY_WIDTH[toks[i]]
+            ents.append(toks[i:i + w])
+            i += w
+        for i in range(n):
+            rest = []
+            for j, e in enumerate(ents):
+                if j == i:
+                    continue
+                if e[0] == "R":
+                    k = int(e[1])
+                    if k == i:
+                        continue
+                    e = ["R", str(k - 1 if k > i else k), e[2]]
+                rest.append(e)
+            if rest:
+                yield mk([str(len(rest))] + [t for e in rest for t in e])
+        for i, e in enumerate(ents):
+            if e[-1] != "-":
+                q = ents[:i] + [e[:-1] + ["-"]] + ents[i + 1:]
+                yield mk([str(n)] + [t for x in q for t in x])
+    elif op in ("hist", "ops"):
+        k = int(a[0])
+        head, prog = a[:1 + 4 * k], a[1 + 4 * k:]
+        if op == "hist":
+            for i in range(len(prog)):
+                yield mk(head + prog[:i] + prog[i + 1:])
+            for i, t in enumerate(prog):
+                f = t.split(":")
+                if f[0] in ("a", "p") and f[-1] != "-":
+                    for sh in _shorter(f[-1]):
+                        yield mk(head + prog[:i] + [":".join(f[:-1] + [sh])] + prog[i + 1:])
+        else:
+            # sub-programs that leave exactly one CHText/chunk value
+            depth = []
+            for i, t in enumerate(prog):
+                f = t.split(":")
+                if f[0] in ("s", "c"):
+                    depth.append(1)
+                elif f[0] in ("ls", "tp", "mk"):
+                    depth.append(1 - int(f[1]))
+                elif f[0] in ("add", "iadd"):
+                    depth.append(-1)
+                elif f[0] == "join":
+                    depth.append(-int(f[2]))
+                else:
+                    depth.append(0)
+            for i in range(len(prog)):
+                for j in range(i + 1, len(prog)):
+                    tot, ok = 0, True
+                    for d in depth[i:j]:
+                        tot += d
+                        if tot < 1:
+                            ok = False
+                            break
+                    if ok and tot == 1 and not prog[j - 1].startswith(("s:", "ls:", "tp:")):
+                        yield mk(head + prog[i:j])
+        for i in range(k):
+            sp = head[1 + 4 * i: 5 + 4 * i]
+            if sp[2] != "NNNNN":
+                yield mk(head[:1 + 4 * i] + sp[:2] + ["NNNNN", sp[3]] + head[5 + 4 * i:] + prog)
     elif op in ("strip", "term", "pfmt"):
         for t in _shorter(a[0]):
             yield mk([t])
@@ -890,6 +1557,12 @@ def nontrivial(case, replies):
         return int(a[0]) >= 2
     if op == "pfmt":
         return a[0] != "-"
+    if op == "seq":
+        return int(a[0]) >= 2
+    if op == "hist":
+        return a.count("r") >= 2
+    if op == "ops":
+        return True
     return "27" in a[0].split(",")
 
 
@@ -897,23 +1570,43 @@ def tags(case, replies):
     yield case.get("meta", {}).get("kind", "?")
     r = replies[0].split()
     yield "reply:" + r[0] + (":" + r[1] if r[0] == "err" and len(r) > 1 else "")
+    op, *a = case["lines"][0].split()
+    if op == "seq" and len(r) > 1:
+        for kind in sorted(set(x.split(":")[0] for x in r[1].split("|"))):
+            yield "seq-answer:" + {"s": "str", "b": "bytes", "e": "error", "none": "no-object"}.get(kind, kind)
+    elif op == "ops":
+        k = int(a[0])
+        for t in sorted(set(x.split(":")[0] for x in a[1 + 4 * k:])):
+            yield "ops-token:" + t
+    elif op == "hist":
+        k = int(a[0])
+        for t in sorted(set(x.split(":")[0] for x in a[1 + 4 * k:])):
+            yield "hist-op:" + t
 
 
-LEVEL_TEXT = ("Proved in Lean for all colour values, all effect settings and all escape-free texts, on a model of "
-              "_ColorSequences.make / _make_seq_element / CHText construction, str() and strip_colors whose constants "
-              "(colour table, effect codes, sequence literals, strip pattern class) are regenerated from ak/color.py on "
-              "every run: a terminal (SGR interpreter written from ECMA-48/T.416) starting in default state shows every "
-              "character of every chunk with exactly the requested fg/bg/effects and is in default state after every "
-              "chunk and at the end, also after CHText's merging of neighbours and for any other arrangement of chunks whose "
-              "prefix/suffix pairs come from formatters; strip(render) = plain text (also embedded in other text); no_color "
-              "and plain formatters emit nothing; the bytes formatter emits the same ASCII sequences; mkSeq succeeds "
-              "exactly on {8 names, 0-255, (r,g,b) in [0,5]^3 -> 16+36r+6g+b, g<digits> <= 23 -> 232+N} and raises "
-              "ValueError otherwise. model = code by differential run (exhaustive over names x names, 256 ints, 216 "
-              "triples, g0-g30, 3^5 effect settings; random texts, CHText part lists, strings with ESC fragments).")
-LEVEL_NOTE = ("Trusted: Lean kernel, translator/adapter/oracle in harness/c09.py, the correspondence (exhaustive over the "
-              "finite colour domain, sampled over texts), Python's re and str.encode, and that real terminals implement "
-              "SGR as Sgr.run (colon form 38:5:n). Out of domain by decision: bool/list colour values, tuples with "
-              "non-int members, 'g+5'-style strings accepted by int().")
+LEVEL_TEXT = ("Proved in Lean for all colour values (incl. floats and float tuples), all effect settings and all escape-free "
+              "texts, on a model of _ColorSequences.make / _make_seq_element / CHText construction, str() and strip_colors "
+              "whose constants (colour table, effect codes, sequence literals, strip pattern class) are regenerated from "
+              "ak/color.py on every run: a terminal (SGR interpreter written from ECMA-48/T.416) starting in default state "
+              "shows every character of every chunk with exactly the requested fg/bg/effects and is in default state after "
+              "every chunk and at the end - for the constructor's part list (with merging), for any arrangement of "
+              "formatter-made chunks, for EVERY value of the CHText model of C08 (hence the result of any tree of CHText "
+              "operations) and at every observation of any mutation history of one object; strip(render) = plain text "
+              "(also embedded in other text); no_color and plain formatters emit nothing; the bytes formatter emits the "
+              "same ASCII sequences; mkSeq succeeds exactly on {8 names, 0-255, int (r,g,b) in [0,5]^3 -> 16+36r+6g+b, "
+              "g<digits> <= 23 -> 232+N} and raises ValueError otherwise, wherever the call stands in a sequence of calls "
+              "(the model of a process carries nothing but the formatter objects from call to call); the id-for-prefix "
+              "abstraction of the CHText model is proved sound for the palettes the driver accepts. model = code by "
+              "differential run (exhaustive over names x names, 256 ints, 216 triples, g0-g30, 3^5 effect settings, "
+              "int/float pairs, small histories; random texts, part lists, call sequences, histories, operation trees, "
+              "strings with ESC fragments).")
+LEVEL_NOTE = ("Kernel-checked: all 27 pinned theorems. Rest on the tie only: that the code has no state between calls / "
+              "renderings (the model has none by construction - C09.calls_stateless, C09.hist_shows say what that means; "
+              "the seq and hist streams and the oracle's per-call judgement test it), that CHText operations are the ones "
+              "of Model/CHText.lean (C08's theorems), Python's re, str.encode, int(). Trusted: Lean kernel, "
+              "translator/adapter/oracle in harness/c09.py, and that real terminals implement SGR as Sgr.run (colon form "
+              "38:5:n). Out of domain by decision: bool/list colour values, tuples with non-numeric members, "
+              "'g+5'-style strings accepted by int(), object-lifetime effects (address reuse) across test cases.")
 TECHNIQUE = ("Lean 4 theorems (terminal state machine, induction over chunks; finite table facts decided by the kernel "
              "and lifted) + translator for tables/literals/regex class + exhaustive correspondence + independent Python "
              "terminal as oracle")
